@@ -452,6 +452,16 @@ func runB(root, id string, eb *engineB) int {
 		if bound < 0 {
 			continue // not part of this tier
 		}
+		// development aid: VERIF_ONLY=<substring> runs the matching scenarios only,
+		// VERIF_BOUND_ADD=<n> raises their requested bound
+		if f := os.Getenv("VERIF_ONLY"); f != "" && !strings.Contains(sc.Name, f) {
+			continue
+		}
+		if v := os.Getenv("VERIF_BOUND_ADD"); v != "" {
+			var n int
+			fmt.Sscanf(v, "%d", &n)
+			bound += n
+		}
 		deadline := per
 		// unused budget of earlier scenarios is passed on
 		if left := remaining / float64(len(scens)-i); left > deadline {
